@@ -20,7 +20,7 @@ def flag(b):
 def in_range(xs, hi, lo=0):
     ok = True
     for x in xs:
-        ok = ok and (lo <= x) and (x < hi)
+        ok = ok & (lo <= x) & (x < hi)
     return ok
 
 
@@ -81,19 +81,18 @@ def decode_enfa_sparse(t, m_used, n, k):
 
 
 def sparse_canonical(t, m_used):
-    """Precondition: used triples strictly increasing (no duplicates, one order), unused are 0."""
+    """Precondition: used triples strictly increasing (no duplicates, one order), unused are 0.
+    Written with & / | only: on symbolic values this is ONE solver term (an `and` / `or` / chained
+    comparison would fork the path at every conjunct)."""
     ok = True
     m = len(t) // 3
     for i in range(m):
-        used = i < m_used
-        if not used:
-            ok = ok and t[3 * i] == 0 and t[3 * i + 1] == 0 and t[3 * i + 2] == 0
+        a = (t[3 * i], t[3 * i + 1], t[3 * i + 2])
+        ok = ok & ((i < m_used) | ((a[0] == 0) & (a[1] == 0) & (a[2] == 0)))
         if i + 1 < m:
-            nxt_used = (i + 1) < m_used
-            a = (t[3 * i], t[3 * i + 1], t[3 * i + 2])
             b = (t[3 * i + 3], t[3 * i + 4], t[3 * i + 5])
-            if nxt_used:
-                ok = ok and (a[0] < b[0] or (a[0] == b[0] and (a[1] < b[1] or (a[1] == b[1] and a[2] < b[2]))))
+            less = (a[0] < b[0]) | ((a[0] == b[0]) & ((a[1] < b[1]) | ((a[1] == b[1]) & (a[2] < b[2]))))
+            ok = ok & ((i + 1 >= m_used) | less)
     return ok
 
 
@@ -174,29 +173,28 @@ def decode_cfg(t, p_used, v, nt, b):
 
 
 def cfg_canonical(t, p_used, v, nt, b):
-    """Precondition: ranges; unused slots zero; used productions strictly increasing (a set, one order)."""
+    """Precondition: ranges; unused slots zero; used productions strictly increasing (a set, one order).
+    & / | only (one solver term, no forking)."""
     stride = cfg_stride(b)
     maxp = len(t) // stride
-    ok = True
+    ok = (0 <= p_used) & (p_used <= maxp)
     for i in range(maxp):
         base = i * stride
-        used = i < p_used
-        ok = ok and 0 <= t[base] < v and 0 <= t[base + 1] <= b
+        ok = ok & (0 <= t[base]) & (t[base] < v) & (0 <= t[base + 1]) & (t[base + 1] <= b)
         for j in range(b):
-            ok = ok and 0 <= t[base + 2 + j] < v + nt
-            ok = ok and (j < t[base + 1] or t[base + 2 + j] == 0)
-        if not used:
-            ok = ok and t[base] == 0 and t[base + 1] == 0
-        if i + 1 < maxp and (i + 1) < p_used:
-            ok = ok and lex_less(t[base:base + stride], t[base + stride:base + 2 * stride])
+            x = t[base + 2 + j]
+            ok = ok & (0 <= x) & (x < v + nt) & ((j < t[base + 1]) | (x == 0))
+        ok = ok & ((i < p_used) | ((t[base] == 0) & (t[base + 1] == 0)))
+        if i + 1 < maxp:
+            ok = ok & ((i + 1 >= p_used) | lex_less(t[base:base + stride], t[base + stride:base + 2 * stride]))
     return ok
 
 
 def lex_less(a, b):
-    """Strict lexicographic order of two equal-length tuples of (symbolic) ints."""
+    """Strict lexicographic order of two equal-length tuples of (symbolic) ints, as one term."""
     res = False
     for i in range(len(a) - 1, -1, -1):
-        res = (a[i] < b[i]) or (a[i] == b[i] and res)
+        res = (a[i] < b[i]) | ((a[i] == b[i]) & res)
     return res
 
 
@@ -248,15 +246,15 @@ def decode_pda(t, m_used, n, k, npush=len(PDA_PUSHES)):
 
 def pda_canonical(t, m_used, n, k, npush=len(PDA_PUSHES)):
     maxm = len(t) // 5
-    ok = True
+    ok = (0 <= m_used) & (m_used <= maxm)
     for i in range(maxm):
         b = 5 * i
-        ok = ok and 0 <= t[b] < n and 0 <= t[b + 1] <= k and 0 <= t[b + 2] < 2 and 0 <= t[b + 3] < n \
-            and 0 <= t[b + 4] < npush
-        if not (i < m_used):
-            ok = ok and t[b] == 0 and t[b + 1] == 0 and t[b + 2] == 0 and t[b + 3] == 0 and t[b + 4] == 0
-        if i + 1 < maxm and (i + 1) < m_used:
-            ok = ok and lex_less(t[b:b + 5], t[b + 5:b + 10])
+        ok = ok & (0 <= t[b]) & (t[b] < n) & (0 <= t[b + 1]) & (t[b + 1] <= k) & (0 <= t[b + 2]) & (t[b + 2] < 2) \
+            & (0 <= t[b + 3]) & (t[b + 3] < n) & (0 <= t[b + 4]) & (t[b + 4] < npush)
+        ok = ok & ((i < m_used) | ((t[b] == 0) & (t[b + 1] == 0) & (t[b + 2] == 0) & (t[b + 3] == 0)
+                                   & (t[b + 4] == 0)))
+        if i + 1 < maxm:
+            ok = ok & ((i + 1 >= m_used) | lex_less(t[b:b + 5], t[b + 5:b + 10]))
     return ok
 
 
